@@ -7,9 +7,16 @@
 (* by a crashed process) and which other calls may happen.                  *)
 EXTENDS LayoutGC
 
-CC(root, tag, skip, refs, key) == [root |-> root, tag |-> tag, skip |-> skip, refs |-> refs, key |-> key, rt |-> FALSE]
+\* rk: ImageWithReferrerTgt naming this very layout (spelled rk), "" = not given; rsrc: ImageWithReferrerSrc
+\* (another source repository, no effect on the layout)
+CC(root, tag, skip, refs, key) == [root |-> root, tag |-> tag, skip |-> skip, refs |-> refs, key |-> key, rt |-> FALSE,
+                                   rk |-> "", rsrc |-> FALSE]
 \* ImageWithReferrers + ImageWithReferrerTgt(this layout): the image goes to another layout
-CCR(root, tag, key) == [root |-> root, tag |-> tag, skip |-> {}, refs |-> TRUE, key |-> key, rt |-> TRUE]
+CCR(root, tag, key) == [root |-> root, tag |-> tag, skip |-> {}, refs |-> TRUE, key |-> key, rt |-> TRUE,
+                        rk |-> "", rsrc |-> FALSE]
+\* ImageWithReferrers + ImageWithReferrerTgt(the target layout itself, spelled rk)
+CCS(root, tag, key, rk, rsrc) == [root |-> root, tag |-> tag, skip |-> {}, refs |-> TRUE, key |-> key, rt |-> FALSE,
+                                  rk |-> rk, rsrc |-> rsrc]
 Base == [cp |-> [c \in Copies |-> CC("M3", "t1", {}, FALSE, "p")], gc |-> TRUE, pre |-> {}, plant |-> {},
          ckeys |-> {"p"}, okey |-> "p", faults |-> TRUE, dels |-> {}, tdels |-> {"t1"},
          pblobs |-> {}, badput |-> FALSE, pmans |-> {}, retags |-> {}, fresh |-> FALSE]
@@ -76,6 +83,31 @@ RefTgtConfs == {
   [Base EXCEPT !.cp = Two(CCR("M1", "t1", k), CC("M4", "t2", {}, FALSE, "p")),
                !.ckeys = {"p"}, !.fresh = fr, !.tdels = {"t2", FB}, !.dels = {"A1"}, !.faults = FALSE]
     : k \in {"p", "l"}, fr \in BOOLEAN }
+
+\* a copy whose referrer target is its own target layout (locked twice, unlocked twice) overlapping
+\* with a plain copy; the small image M3 has no referrers, M1 has two
+SameTgtConfs == {
+  [Base EXCEPT !.cp = Two(CCS(r, "t1", "p", rk, rs), CC("M4", "t2", {}, FALSE, "p")),
+               !.ckeys = {"p"}, !.tdels = {"t1", "t2"}, !.faults = fl]
+    : r \in {"M3"}, rk \in {"p", "p/"}, rs \in {FALSE}, fl \in BOOLEAN }
+SameTgtConfsGen == SameTgtConfs \cup {
+  [Base EXCEPT !.cp = Two(CCS(r, "t1", "p", rk, rs), CC("M4", "t2", {}, FALSE, k2)),
+               !.ckeys = {"p"}, !.fresh = fr, !.tdels = {"t1", "t2", FB}, !.faults = FALSE]
+    : r \in {"M3", "M1"}, rk \in {"p", "l"}, rs \in BOOLEAN, k2 \in {"p", "l"}, fr \in BOOLEAN }
+
+\* a digest that is a blob of one manifest and a manifest of its own (an artifact that packages the
+\* manifest of an image / of an index); the order of the two entries in index.json follows from
+\* which copy pushes its tag first, retags and deletes move entries
+BlobManConfs == {
+  [Base EXCEPT !.cp = Two(CC("U1", "t1", {}, FALSE, "p"), CC("M4", "t2", {}, FALSE, "p")),
+               !.tdels = {"t1", "t2"}, !.retags = {<<"t2", "t3">>}, !.faults = FALSE],
+  [Base EXCEPT !.cp = Two(CC("U1", "t1", {}, FALSE, "p"), CC("M3", "t2", {}, FALSE, "p")),
+               !.pre = {<<"M4", "t0">>}, !.tdels = {"t0", "t1"}, !.retags = {<<"t0", "t3">>}, !.faults = FALSE] }
+BlobManConfsGen == BlobManConfs \cup {
+  [Base EXCEPT !.cp = Two(CC("U2", "t1", {}, FALSE, "p"), CC("I1", "t2", {}, FALSE, "p")),
+               !.tdels = {"t1", "t2"}, !.retags = {<<"t2", "t3">>, <<"t1", "t4">>}, !.dels = {"M1"}, !.faults = FALSE],
+  [Base EXCEPT !.cp = Two(CC("U1", "t1", {}, FALSE, "p"), CC("X1", "t2", {}, FALSE, "p")),
+               !.tdels = {"t1", "t2"}, !.pmans = {<<"M4", "t5">>}, !.dels = {"U1"}, !.faults = FALSE] }
 
 \* a layout that does not exist when the history starts and / or is reached through a symbolic
 \* link (one spelling per history: everything through the link, or everything through the real path)
